@@ -19,8 +19,9 @@ VERIF = os.path.dirname(os.path.dirname(os.path.abspath(__file__)))
 REPO = os.environ.get("VF_REPO", "/repo")
 BUILD = os.path.join(VERIF, "build")
 HARNESS = os.path.join(VERIF, "harness")
-EVIDENCE = os.path.join(VERIF, "evidence")
-REPLAYS = os.path.join(VERIF, "replays")
+# calibration runs against a deliberately broken tree (tools/try_seeded.py) must not overwrite the evidence of the real tree
+EVIDENCE = os.environ.get("VF_EVIDENCE_DIR") or os.path.join(VERIF, "evidence")
+REPLAYS = os.path.join(os.environ["VF_EVIDENCE_DIR"], "replays") if os.environ.get("VF_EVIDENCE_DIR") else os.path.join(VERIF, "replays")
 NCPU = int(os.environ.get("VF_JOBS", os.cpu_count() or 4))
 GUARD = "UNIFEX_VERIF_HOOKS"
 
@@ -139,14 +140,16 @@ def tree_dir():
 
 
 def prune_build(keep=3):
-    """Keep only the `keep` most recently used tree directories."""
+    """Keep the `keep` most recently used tree directories and anything used in the last 90 minutes."""
     if not os.path.isdir(BUILD):
         return
     ds = [os.path.join(BUILD, x) for x in os.listdir(BUILD) if x.startswith("t-")]
     ds.sort(key=lambda p: os.path.getmtime(p), reverse=True)
     cur = os.path.join(BUILD, "t-" + tree_hash())
+    now = time.time()
     for d in ds[keep:]:
-        if d != cur:
+        # a tree used within the last 90 minutes may belong to a check that is still running in another process
+        if d != cur and now - os.path.getmtime(d) > 90 * 60:
             shutil.rmtree(d, ignore_errors=True)
 
 
@@ -296,36 +299,74 @@ class Result:
         self.rc, self.out, self.err, self.timed_out, self.wall = rc, out, err, timed_out, wall
 
 
+OUTPUT_LIMIT = 256 << 20   # bytes of stdout+stderr after which a child is considered runaway and killed
+
+
 def run(cmd, env=None, timeout=600, stdin=None, cwd=None):
+    """run a harness process; output goes to temporary files (not pipes) so that a runaway child cannot exhaust this
+    process's memory: beyond OUTPUT_LIMIT the child is killed and reported like a hang (Result.runaway)"""
+    import tempfile
     e = dict(os.environ)
     e.update(SAN_ENV)
     if env:
         e.update(env)
     t0 = time.time()
-    p = subprocess.Popen(cmd, stdout=subprocess.PIPE, stderr=subprocess.PIPE,
+    fo = tempfile.TemporaryFile(dir="/var/tmp")
+    fe = tempfile.TemporaryFile(dir="/var/tmp")
+    p = subprocess.Popen(cmd, stdout=fo, stderr=fe,
                          stdin=subprocess.PIPE if stdin is not None else subprocess.DEVNULL,
                          env=e, cwd=cwd, start_new_session=True)
-    try:
-        out, err = p.communicate(stdin, timeout=timeout)
-        to = False
-    except subprocess.TimeoutExpired:
-        # collect a backtrace of all threads for the replay file
-        bt = ""
+    if stdin is not None:
         try:
-            r = subprocess.run(["gdb", "-p", str(p.pid), "-batch", "-ex", "thread apply all bt 12"],
-                               capture_output=True, text=True, timeout=60)
-            bt = r.stdout[-20000:]
-        except Exception as ex:  # noqa
-            bt = "gdb failed: %r" % ex
-        try:
-            os.killpg(p.pid, signal.SIGKILL)
+            p.stdin.write(stdin)
+            p.stdin.close()
         except OSError:
             pass
-        out, err = p.communicate()
-        err = err + b"\n[vf] TIMEOUT backtrace:\n" + bt.encode()
-        to = True
-    return Result(p.returncode, out.decode("utf-8", "replace"), err.decode("utf-8", "replace"),
-                  to, time.time() - t0)
+    to = False
+    runaway = False
+    bt = ""
+    delay = 0.005
+    while True:
+        try:
+            p.wait(timeout=delay)
+            break
+        except subprocess.TimeoutExpired:
+            pass
+        delay = min(0.25, delay * 2)
+        size = os.fstat(fo.fileno()).st_size + os.fstat(fe.fileno()).st_size
+        if size > OUTPUT_LIMIT:
+            runaway = True
+        if runaway or time.time() - t0 > timeout:
+            # collect a backtrace of all threads for the replay file
+            try:
+                r = subprocess.run(["gdb", "-p", str(p.pid), "-batch", "-ex", "thread apply all bt 12"],
+                                   capture_output=True, text=True, timeout=60)
+                bt = r.stdout[-20000:]
+            except Exception as ex:  # noqa
+                bt = "gdb failed: %r" % ex
+            try:
+                os.killpg(p.pid, signal.SIGKILL)
+            except OSError:
+                pass
+            p.wait()
+            to = True
+            break
+
+    def tail(f, limit):
+        n = os.fstat(f.fileno()).st_size
+        f.seek(max(0, n - limit) if n > limit else 0)
+        d = f.read()
+        f.close()
+        return d
+
+    out = tail(fo, 64 << 20)
+    err = tail(fe, 8 << 20)
+    if to:
+        err = err + (b"\n[vf] RUNAWAY OUTPUT (killed)" if runaway else b"") + b"\n[vf] TIMEOUT backtrace:\n" + bt.encode()
+    res = Result(p.returncode, out.decode("utf-8", "replace"), err.decode("utf-8", "replace"),
+                 to, time.time() - t0)
+    res.runaway = runaway
+    return res
 
 
 def parallel(fn, items, workers=None):
@@ -381,6 +422,42 @@ def san_summary(err):
         if len(frames) >= 5:
             break
     return kind, frames
+
+
+_GDB_FRAME = re.compile(r"^#\d+\s+(?:0x[0-9a-f]+ in )?(.+?) \(.*?\)(?: at (\S+?):\d+)?\s*$", re.M)
+
+
+def abort_summary(err, rc):
+    """key for a process that died without a sanitizer report: failed assertion text (numbers masked) or rc"""
+    m = re.search(r"Assertion `([^']*)' failed", err)
+    if m:
+        return "assert:" + re.sub(r"\d+", "N", m.group(1)).replace(" ", "_")[:80]
+    if "terminate called" in err or "std::terminate" in err:
+        return "terminate"
+    return "crash:rc%s" % rc
+
+
+def hang_summary(err):
+    """top library frames of thread 1 in the gdb backtrace taken when a run timed out (where is it stuck?)"""
+    i = err.find("[vf] TIMEOUT backtrace:")
+    if i < 0:
+        return []
+    seg = err[i:]
+    j = seg.find("Thread 1 ")
+    if j >= 0:
+        seg = seg[j:]
+    frames = []
+    for fn, path in _GDB_FRAME.findall(seg):
+        c = _clean_fn(fn)
+        if c.startswith("__") or c.startswith("std::") or c in ("sched_yield", "nanosleep", "futex_wait") \
+                or "spin_wait" in c or "syscall" in c:
+            continue
+        if "::" not in c and path:
+            c = os.path.basename(path) + ":" + c
+        frames.append(c)
+        if len(frames) >= 3:
+            break
+    return frames
 
 
 _TSAN_SKIP = ("memset", "memcpy", "operator new", "operator delete", "malloc", "free", "std::__atomic_base",
@@ -523,6 +600,10 @@ class Verdict:
                     return f
         return None
 
+    def has_new(self):
+        """any violation that is not a listed known finding?"""
+        return any(self.match_known(k) is None for k in self.viol)
+
     def finish(self):
         """Print KNOWN-FINDING / VIOLATION lines; return (exit code, n_new_violations)."""
         new = 0
@@ -543,6 +624,14 @@ class Verdict:
             print("KNOWN-FINDING: property=%s %s [seen %d times under %d violation keys, e.g. %s]" %
                   (self.prop, f.get("what", ""), n, len(keys), keys[0]), flush=True)
         return (1 if new else 0), new
+
+
+def require_observed(verdict, missing, what):
+    """a stress run that observed none of some required outcome classes is a harness failure (exit 2) - unless the
+    run also produced a new violation (e.g. the process of that mode died on a sanitizer report or an assertion):
+    then the violation is the verdict and the missing outcomes are its consequence"""
+    if missing and not verdict.has_new():
+        raise HarnessFailure("%s observed none of: %s" % (what, missing))
 
 
 def write_evidence(prop, tier, seed, level, coverage, wall_s, violations, assumptions):
